@@ -550,6 +550,9 @@ def run(ctx, rep):
     # ... on every Ok path
     if ok:
         cut = {(b, x) for b, t in sets for x in T.succ(b)}
+        # a handle without a directory entry (the root directory stream) has no recorded size
+        from rules.c14 import none_edges_of_field
+        cut |= none_edges_of_field(T, 'entry', 'fatfs::file::File')
         reach = T.reach_from([0], cut_blocks=error_blocks(T), cut_edges=cut)
         panics_only = [r for r in T.return_blocks() if r in reach]
         ok = not panics_only
